@@ -35,6 +35,22 @@ CLAIMED = {
              'oracle = the original trace at L\'[j].',
         ref='DESIGN.md §6 C19', note='Assumes strictly increasing timestamps (samples are identified by timestamp); trimming below the current position is outside the property.',
         technique='Lean 4 proof (pointwise denotation of the re-indexed trace) + correspondence'),
+    'C01': dict(
+        text='Theorems over the model of the VCD reader for every list of dump items and every identifier code: runDump_col (the fold over all '
+             'ids computes per id a column that depends on that id alone), col_pointwise (cell j = last value assigned at or before timestamp j, '
+             'x before any assignment), col_length / runDump_ts (one index per # marker, in file order), shared_id, bitsToVal_binary/xz at any '
+             'width; kernel-evaluated instances of the name normalisation. Correspondence: generated well-formed VCD texts with random layout, '
+             'every (signal,index) pair read through the language; oracle = independent pointwise denotation of the same abstract file.',
+        ref='DESIGN.md §6 C01', note='Proved part covers the dump section from classified items (dump_denote_partial); token classification, header walk and '
+             'name normalisation on rendered files are tied by the correspondence only. Layout is abstracted by str.split(); file I/O, keep_signals, FST not covered.',
+        technique='Lean 4 proof (fold invariant + pointwise denotation) + correspondence'),
+    'C18': dict(
+        text='Theorems over the model of the CSV reader for every input: csvTime_frac/int/dot (time cell -> integer nanoseconds for 0-9 fraction '
+             'digits), split_join (rows and cells recovered exactly), row_places (each cell goes to the column named by its own header position; the '
+             'time column is skipped wherever it stands), rows_ts (one index per row, in order). Correspondence: generated CSV texts, every '
+             '(column,row) read; oracle = independent reference denotation.',
+        ref='DESIGN.md §6 C18', note='Header-name normalisation on arbitrary names is tied by the correspondence (kernel-evaluated instances only); file I/O on the implementation side only.',
+        technique='Lean 4 proof (numeral and positional lemmas over the reader model) + correspondence'),
 }
 
 REASONS_PENDING = 'check under construction in this round (DESIGN.md §13 build order); not a claim of inapplicability'
